@@ -11,6 +11,8 @@
    thread.  Because every step starts with the mutex free and ends with it free, the
    mutex itself carries no state.  With no select in flight p.sops is empty, so
    notifyOps is a no-op and is omitted; selsends stays 0.
+   Send on / close of a closed channel panics after releasing the mutex (result RPanic):
+   the model describes z_chan.go with props/C10/fixes/apply/01-chan-panic-on-closed.diff.
 
    Indices and counters are [nat] (they are bounded by the capacity and the number of
    threads); values are [N].  sends is a uint16 in the source: the model assumes fewer
@@ -24,7 +26,8 @@ Inductive res :=
 | RRecv (ok : bool) (v : N)              (* ChanRecv's recvOK, and the receive buffer *)
 | RTrySend (ok : bool)
 | RTryRecv (rok tok : bool) (v : N)
-| RClose.
+| RClose
+| RPanic.                                (* the call panicked (send on / close of a closed channel) *)
 
 (* the fields of type Chan; data is split into the ring buffer (cap > 0) and the
    pointer to a receiver's buffer (cap = 0; a thread id, the buffer is that thread's
@@ -50,7 +53,8 @@ Record thread := mkTh {
 (* what becomes visible at the level of Go's semantics *)
 Inductive event :=
 | ESend (v : N) | ERecv (v : N) | ERecvClosed | EClose
-| ESendClosed            (* a send found the channel closed and returned false *)
+| ESendClosed            (* a send (blocking or not) found the channel closed and panicked *)
+| ECloseClosed           (* close of a closed channel panicked *)
 | ETrySendFail | ETryRecvEmpty.
 
 (* the log records which thread caused each event *)
@@ -99,20 +103,22 @@ Definition send_sec (c : chan) (th : thread) (rest : list op) (v : N) : eff :=
   if cap c =? 0 then
     if negb (getp c =? chanHasRecv) && negb (closed c) then
       mkEff (set_sends c (S (sends c))) (park th PSendW) None false None
-    else if closed c then mkEff c (fin th rest (RSend false)) None false (Some ESendClosed)
+    else if closed c then mkEff c (fin th rest RPanic) None false (Some ESendClosed)
     else mkEff (set_getp c 0) (goto th (PBcast (Some (RSend true)))) (deliver_of c v) false (Some (ESend v))
   else
-    if len c =? cap c then mkEff c (park th PSendW) None false None
-    else if closed c then mkEff c (fin th rest (RSend false)) None false (Some ESendClosed)
+    (* for p.len == n && !p.close { Wait }: a parked sender notices close *)
+    if (len c =? cap c) && negb (closed c) then mkEff c (park th PSendW) None false None
+    else if closed c then mkEff c (fin th rest RPanic) None false (Some ESendClosed)
     else mkEff (put c v) (goto th (PBcast (Some (RSend true)))) None false (Some (ESend v)).
 
 Definition trysend_sec (c : chan) (th : thread) (rest : list op) (v : N) : eff :=
-  if cap c =? 0 then
-    if negb (getp c =? chanHasRecv) || closed c then
+  if closed c then mkEff c (fin th rest RPanic) None false (Some ESendClosed)
+  else if cap c =? 0 then
+    if negb (getp c =? chanHasRecv) then
       mkEff c (fin th rest (RTrySend false)) None false (Some ETrySendFail)
     else mkEff (set_getp c 0) (goto th (PBcast (Some (RTrySend true)))) (deliver_of c v) false (Some (ESend v))
   else
-    if (len c =? cap c) || closed c then
+    if len c =? cap c then
       mkEff c (fin th rest (RTrySend false)) None false (Some ETrySendFail)
     else mkEff (put c v) (goto th (PBcast (Some (RTrySend true)))) None false (Some (ESend v)).
 
@@ -164,7 +170,9 @@ Definition section (c : chan) (th : thread) (t : nat) (o : op) (rest : list op) 
       | OTrySend v => trysend_sec c th rest v
       | ORecv => recv_sec c th rest t
       | OTryRecv => tryrecv_sec c th rest t
-      | OClose => mkEff (set_closed c) (goto th (PBcast (Some RClose))) None false (Some EClose)
+      | OClose =>
+          if closed c then mkEff c (fin th rest RPanic) None false (Some ECloseClosed)
+          else mkEff (set_closed c) (goto th (PBcast (Some RClose))) None false (Some EClose)
       end
   | PSendW =>
       match o with
@@ -261,6 +269,7 @@ Definition res_eqb (a b : res) : bool :=
   | RTrySend x, RTrySend y => Bool.eqb x y
   | RTryRecv x1 x2 v, RTryRecv y1 y2 w => Bool.eqb x1 y1 && Bool.eqb x2 y2 && N.eqb v w
   | RClose, RClose => true
+  | RPanic, RPanic => true
   | _, _ => false
   end.
 
@@ -275,9 +284,8 @@ Definition obs_eqb (a b : observation) : bool :=
 Record spec := mkSpec { sq : list N; sclosed : bool }.
 
 (* what Go allows for a channel of capacity n > 0.  A send that finds the channel
-   closed must panic in Go; the code returns false instead (finding F5): the event
-   ESendClosed is accepted only when the channel is closed, and it changes nothing.
-   ETrySendFail on a closed channel is the same finding for select-send. *)
+   closed panics (ESendClosed, only when closed); so does close of a closed channel
+   (ECloseClosed); a non-blocking send fails only on a full OPEN channel. *)
 Definition spec_step (n : nat) (a : spec) (e : event) : option spec :=
   match e with
   | ESend v => if negb (sclosed a) && (length (sq a) <? n) then Some (mkSpec (sq a ++ [v]) false) else None
@@ -286,9 +294,10 @@ Definition spec_step (n : nat) (a : spec) (e : event) : option spec :=
                | [] => None
                end
   | ERecvClosed => match sq a with [] => if sclosed a then Some a else None | _ => None end
-  | EClose => Some (mkSpec (sq a) true)         (* close of a closed channel: F5 *)
+  | EClose => if sclosed a then None else Some (mkSpec (sq a) true)
+  | ECloseClosed => if sclosed a then Some a else None
   | ESendClosed => if sclosed a then Some a else None
-  | ETrySendFail => if sclosed a || (length (sq a) =? n) then Some a else None
+  | ETrySendFail => if negb (sclosed a) && (length (sq a) =? n) then Some a else None
   | ETryRecvEmpty => match sq a with [] => if sclosed a then None else Some a | _ => None end
   end.
 
